@@ -62,6 +62,16 @@ def run(ctx):
     e0 = ok_edge_of_try(c, a0)
     ctx.ob('C10.2', c, 'create-before-lineage', e0 is not None and e0[1] is not None and c.edge_dom(e0[0], e0[1], a1.bb), 'the lineage frame is appended only after the creation frame is in the log', line=a1.line)
     between = [x for x in E.sites_with(c, 'TruthAppend') if x.bb not in (a0.bb, a1.bb) and c.can_reach(a0.bb, x.bb) and c.can_reach(x.bb, a1.bb)]
+    # nothing that can fail lies between the two frames either: a `?` there (an index save, a cache write) leaves a
+    # child whose only frame is its creation — the lineage is lost although the caller is told the call failed
+    e0_ = ok_edge_of_try(c, a0)
+    fall_between = []
+    if e0_ is not None and e0_[1] is not None:
+        for s_ in c.sites():
+            if re.search(r'Try>::branch$|FromResidual<.*>>::from_residual$', s_.callee) and c.edge_dom(e0_[0], e0_[1], s_.bb) and c.can_reach(s_.bb, a1.bb) and s_.bb != a1.bb:
+                fall_between.append(s_)
+    ctx.ob('C10.2', c, 'nothing-fallible-between', not fall_between, 'between the creation frame and the lineage frame %s' % ('nothing can return an error' if not fall_between else
+           'a `?` (line %d) can return: the new thread would exist with its creation frame only' % fall_between[0].line), line=fall_between[0].line if fall_between else a1.line)
     ctx.ob('C10.2', c, 'nothing-between', not between, 'no other truth append lies between creation and lineage', line=a1.line)
     s0 = agg0['a'][agg0['fields'].index('session_id')]
     s1 = agg1['a'][agg1['fields'].index('session_id')]
@@ -84,12 +94,16 @@ def run(ctx):
         # the cut recorded in the lineage frame comes from the full replay of the source thread, never from a
         # bounded cache scan (a tail window does not know whether the last message lies before it)
         cache_dests = {s_.dest['l'] for s_ in f.sites() if re.search(r'^ripd::continuity_stream_cache::ContinuityStreamCache::(?!append_best_effort|new)', s_.callee)}
+        # ... nor from a second look at the store's state (the seq table): the cut seq and the cut message must come from
+        # ONE snapshot of the source thread, the replay
+        from .c01 import SEQ_GUARD
+        cache_dests |= {i for i, l in enumerate(f.locals) if re.match(SEQ_GUARD, l['ty'])}
         for cci in ccs:
             lo_ = f.origin(cci.args[5]) if len(cci.args) > 5 else ('?',)
             rl_ = reads_locals(f, cci.args[5]) if len(cci.args) > 5 else set()
             hit = rl_ & cache_dests
             ctx.ob('C10.1', f, 'lineage-from-truth', not hit, 'the lineage frame handed to create_continuity %s' % ('is computed from the replayed source thread' if not hit else
-                   'is computed from a CACHE read (%s): a bounded sidecar window can miss the last message, or be stale' % ', '.join(sorted({s_.name for s_ in f.sites() if s_.dest['l'] in hit}))), line=cci.line)
+                   'is computed from a second source (%s) besides the replay: a cache window can miss the last message; the seq table can already be ahead of the replay that names the message' % (', '.join(sorted({s_.name for s_ in f.sites() if s_.dest['l'] in hit})) or 'the next_seq table')), line=cci.line)
         cc = ccs[0]
         if len(ccs) > 1:
             ctx.note('C10: %s reaches create_continuity at %d call sites (mutually exclusive arms); the per-call clauses below are evaluated for each' % (name, len(ccs)))
